@@ -5,7 +5,7 @@ PROPS["C16"] = {
                  "and the reference values; a prefix memo over the whole enumeration checks that no answer depends on unread bytes",
     "rule": "cases = (sequence of 1..3 documents over a 14-document JSON alphabet, separator before / between / after from 5 whitespace strings, "
             "suffix from 6 byte strings after the last separator, reader from {std::istream over a 1-byte-window streambuf, std::istream over a "
-            "3-byte-window streambuf, custom reader byte-wise, custom reader block-wise, Arduino Stream stub}) and (sequence of 1..3 MessagePack "
+            "3-byte-window streambuf, custom reader byte-wise, custom reader block-wise, byte-wise custom reader with a discard-all filter (code and consumption only), Arduino Stream stub}) and (sequence of 1..3 MessagePack "
             "objects over every encoding with at most one non-minimal node of 12 small values, suffix from 5 byte strings, same readers); "
             "every case performs one call per document plus one more; required after call i: code Ok, observation of the document equal to "
             "the reference value, reader position exactly at the end of document i (one byte further allowed after a JSON number), the same "
